@@ -4,6 +4,12 @@ def classify(sig, what):
     if kind == 'operation-lost': kind = 'operation-dropped'
     if 'tags operations / operationsops' in sig or 'tags api / apiops' in sig or 'tags models / modelsops' in sig:
         return 'O3: a tag whose name collides with a generated package (operations) is renamed by appending "ops" without checking that another tag already has that name (operationsops): both tags share one package and operations with the same id under the two tags overwrite each other - generation succeeds, one (method, path) has no handler.'
+    if kind == 'client-definition-lost':
+        return 'D1 (client target): two definitions whose names mangle to the same Go identifier / file name are written to the same models file by generate client as well: one of them silently disappears.'
+    if kind == 'client-method-lost' and sig.split(' | ')[1] == 'tags':
+        return 'O3/O1 (client target): tags that map to one client package (after mangling or after the generator\'s own de-confliction, e.g. a tag named models) share one <pkg>_client.go: the facade generated for one tag overwrites the other, generation succeeds and the operations of the overwritten tag have no client method.'
+    if kind == 'client-method-lost':
+        return 'O1 (client target): operations whose ids (given or derived from method+path) mangle to the same Go name overwrite each other in the generated client as well: generation succeeds and one (method, path) has no client method.'
     if kind == 'definition-dropped':
         return 'D1: two definitions whose names mangle to the same Go identifier / file name (a-b vs a_b, id vs ID, x vs X ...) are written to the same models file: generation succeeds and one of them silently disappears. No collision detection exists in the model planner (a repair means a new error path in appGenerator/gatherModels, not a one-line patch).'
     if kind in ('operation-dropped', 'operation-unreachable', 'operations-merged', 'wrong-handler'):
